@@ -8,7 +8,7 @@ PROP = dict(
                     "the C++ io::queue / pipe<T> wrappers; after each operation content and length are compared with a deque model "
                     "and ASan/UBSan watch every access.  Exploration, not proof: larger capacities are sampled."),
         level_note="trusts the deque model in harness/c13_queue.c / c13_cxx.cpp, gcc ASan+UBSan red zones (non-adjacent stray writes into other live blocks are not seen)",
-        legs=[dict(name="c13_queue", src=["c13_queue.c"], libs=["mptcore"], batch=512,
+        legs=[dict(name="c13_queue", src=["c13_queue.c"], libs=["mptcore"], batch=512, memcheck=3000,
                    floors={"mpt_qpop": 500, "mpt_queue_crop": 500, "state:wrapped": 2000,
                            "monitor:readbacks": 20000, "history:reached-wrapped": 1000}),
               dict(name="c13_cxx", src=["c13_cxx.cpp"], libs=["mpt++", "mptio", "mptplot", "mptcore"], batch=512,
